@@ -9,7 +9,7 @@ def gen(rng: random.Random, tier: str):
     reps = {"quick": 2, "thorough": 12}[tier]
     for _ in range(reps):
         for nj in jobs:
-            yield {"kind": "batch", "n_jobs": nj, "form": rng.choice(["list", "dict", "collection", "frame", "collection2"]), "n_keys": rng.choice([0, 1, 3, 6, 9]), "dup": rng.random() < 0.3,
+            yield {"kind": "batch", "n_jobs": nj, "form": rng.choice(["list", "dict", "collection", "frame", "collection2"]), "n_keys": rng.choice([0, 1, 3, 6, 9]), "dup": rng.random() < 0.3, "empty_test": rng.random() < 0.4,
                    "op": rng.choice(["recommend", "predict", "score"]), "fail_at": rng.choice([None, None, 0, 2]), "seed": rng.randrange(10**6), "pipeline": rng.choice(["table", "iknn"]),
                    "n": rng.choice([3, 3, None, 0, 1, 50])}
             yield {"kind": "invoker", "n_jobs": nj, "tasks": rng.choice([[], [3], list(range(7)), [5, 5, 1, 1, 9], list(range(20))]), "fail_at": rng.choice([None, None, 1]), "seed": rng.randrange(10**6)}
@@ -19,6 +19,7 @@ def gen(rng: random.Random, tier: str):
     for n_ in (0, None):          # directed: a zero-length request and the pipeline's own default length
         yield {"kind": "batch", "n_jobs": rng.choice(jobs), "form": "list", "n_keys": 3, "dup": False, "op": "recommend", "fail_at": None, "seed": rng.randrange(10**6), "pipeline": "table", "n": n_}
     yield {"kind": "invoker", "n_jobs": top, "tasks": [1, 2, 3], "fail_at": None, "seed": rng.randrange(10**6), "unshippable": True}
+    yield {"kind": "batch", "n_jobs": 1, "form": "dict", "n_keys": 3, "dup": False, "op": rng.choice(["predict", "score"]), "fail_at": None, "seed": rng.randrange(10**6), "pipeline": "table", "n": 3, "empty_test": True}
     for op_ in ("recommend", "predict"):          # directed: keys with fields beyond the user, sequentially and in a pool
         yield {"kind": "batch", "n_jobs": 1 if op_ == "recommend" else top, "form": "collection2", "n_keys": 4, "dup": False, "op": op_, "fail_at": None, "seed": rng.randrange(10**6), "pipeline": "table", "n": 3}
     yield {"kind": "batch", "n_jobs": top, "form": "dict", "n_keys": 6, "dup": False, "op": "predict", "fail_at": rng.choice([0, 2, 5]), "seed": rng.randrange(10**6), "pipeline": "table"}
@@ -204,6 +205,8 @@ def run(case: dict, lean: Lean) -> Outcome:
             else topn_pipeline(ItemKNNScorer(max_nbrs=3), predicts_ratings=True, n=4))
     pipe.train(ds)
     test = {u: ItemList(item_ids=rnd.sample(V, 4) + [7777]) for u in dict.fromkeys(reqs)}
+    if case.get("empty_test") and test and case["form"] in ("dict", "collection", "collection2"):
+        test[next(iter(test))] = ItemList(item_ids=np.array([], dtype=np.int64)); classes.append("a key with an empty test list")          # nothing to score is a request like any other
     op = case["op"] if case["form"] != "list" else "recommend"
     form = case["form"]
     if form == "collection2":
